@@ -127,6 +127,9 @@ def run(ck, only_sweeps=False, prop="C01"):
                          for c in cases[:4]]
     ck.log("correspondence: %d/%d agree; outcomes %s; dropped %s" % (len(cases) - len(bad), len(cases), kinds, dropped))
 
+    if not only_sweeps:
+        overlap_oracle(ck, cases, 150 if thorough else 40)
+
     # every disagreement is a failing input of the property (Spec = documented semantics): shrink and report
     reported = set()
     for b in bad[:40]:
@@ -154,8 +157,93 @@ def run(ck, only_sweeps=False, prop="C01"):
     ck.cov["trusted_base"] = TRUSTED
 
 
+def _shift_ctx(ctx0):
+    """a second context: every numeric value shifted, so that two overlapping runs are distinguishable"""
+    out = {}
+    for k, v in ctx0.items():
+        out[k] = v + 3 if isinstance(v, (int, float)) and not isinstance(v, bool) else v
+    return out
+
+
+def _run_on(pipe, data0, ctx0):
+    from semantiva.context_processors import ContextType
+    from semantiva.pipeline import Payload
+    try:
+        out = pipe.process(Payload(pg.make_data(data0), ContextType({k: pg.v_impl(v) for k, v in ctx0.items()})))
+        return ("done", pg.canon_data(out.data), {k: pg.canon_val(v) for k, v in out.context.to_dict().items()})
+    except pg.Unsupported as u:
+        return ("unsupported", str(u))
+    except Exception as ex:  # noqa
+        return ("failed", type(ex).__name__)
+
+
+def overlap_oracle(ck, cases, limit):
+    """Direct oracle (no model involved): several process() calls on ONE Pipeline object -- one after the other, and two
+    that overlap inside a data node (two threads, a rendezvous operation after the first node) -- must each return
+    what a run of their own payload on a fresh Pipeline returns.  Runs are independent: nothing of one run's data or
+    context may show up in another's."""
+    import threading
+    from semantiva.pipeline import Pipeline
+    from harness.lib.components import VerifRendezvousOperation as RV
+    tried = found = 0
+    for nodes, data0, ctx0, out in cases:
+        if tried >= limit:
+            break
+        if out[0] != "done" or not nodes or nodes[0]["k"] not in ("src", "srcdef") or data0 is not None:
+            continue
+        ctxs = [ctx0, _shift_ctx(ctx0)]
+        if not ctx0 or ctxs[0] == ctxs[1]:
+            continue
+        cfgs = [pg.node_impl(n) for n in nodes]
+        cfgs.insert(1, {"processor": RV})
+        RV.barrier = None
+        try:
+            want = [_run_on(Pipeline([dict(c) for c in cfgs]), data0, c) for c in ctxs]
+        except Exception:  # noqa
+            continue
+        if any(w[0] != "done" for w in want) or want[0] == want[1]:
+            continue
+        tried += 1
+        pipe = Pipeline([dict(c) for c in cfgs])
+        seq = [_run_on(pipe, data0, c) for c in (ctxs[0], ctxs[1], ctxs[0])]          # three runs, one object
+        got = [None, None]
+        RV.barrier = threading.Barrier(2)
+
+        def work(i):
+            got[i] = _run_on(pipe, data0, ctxs[i])
+        ts = [threading.Thread(target=work, args=(i,), daemon=True) for i in (0, 1)]
+        for t in ts:
+            t.start()
+        for t in ts:
+            t.join(30)
+        RV.barrier = None
+        rep = {"nodes": [pg.node_impl_repr(n) for n in nodes], "descriptors": nodes, "data0": data0, "contexts": ctxs,
+               "kind": "overlap"}
+        if seq != [want[0], want[1], want[0]]:
+            found += 1
+            ck.fail_input("C01:runs-on-one-pipeline-object:sequential-run-differs-from-fresh-pipeline",
+                          "runs 1..3 on one Pipeline object returned %s; fresh pipelines return %s" % (str(seq)[:300], str(want)[:300]),
+                          dict(rep, got=seq, want=want))
+        elif got != want:
+            found += 1
+            ck.fail_input("C01:runs-on-one-pipeline-object:overlapping-run-differs-from-fresh-pipeline",
+                          "two overlapping process() calls on one Pipeline object returned %s; each payload alone returns %s" % (str(got)[:300], str(want)[:300]),
+                          dict(rep, got=got, want=want))
+    ck.notes["overlap_oracle"] = {"pipelines": tried, "violations": found}
+    ck.cov["evaluations"] += tried * 5
+    ck.log("one-object oracle: %d pipelines (3 sequential + 2 overlapping runs each), %d violations" % (tried, found))
+
+
 def replay(obj):
     r = obj["replay"]
+    if r.get("kind") == "overlap":
+        class _Ck:
+            notes, cov, failing = {}, {"evaluations": 0}, []
+            def fail_input(self, sig, what, rep): self.failing.append(sig); print("STILL FAILS:", sig, "-", what)
+            def log(self, m): print(m)
+        pg.setup_impl()
+        overlap_oracle(_Ck(), [(r["descriptors"], r["data0"], r["contexts"][0], ("done",))], 1)
+        return 0
     out = pg.run_impl(r["descriptors"], r["data0"], r["ctx0"])
     print("nodes:", json.dumps(r["nodes"]))
     print("data0:", r["data0"], "ctx0:", r["ctx0"])
